@@ -37,6 +37,9 @@ SHARD_TIMEOUT = {"quick": 600, "thorough": 3000}
 def plan(tier, seed):
     shards = pwork.plan(tier, seed, want=("gen", "uses", "meta"),
                         scale=2.0 if tier == "quick" else 3.0)
+    for s in shards:
+        if s["w"] == "gen":
+            s["repeat"] = 0.08  # some commands fill one optional tag slot twice
     for L in (1, 2, 3):
         shards += pwork.plan_tok("full", L, 1, 8 if L == 3 else 1)
     for L in (2, 3, 4):
